@@ -110,7 +110,7 @@ impl Prop for Repetition {
             any::<u32>(),
             any::<bool>(),
             1u16..,
-            prop_oneof![4 => Just(0u8), 2 => Just(1u8), 2 => Just(2u8), 5 => Just(3u8), 4 => Just(4u8)],
+            prop_oneof![4 => Just(0u8), 2 => Just(1u8), 2 => Just(2u8), 5 => Just(3u8), 2 => Just(4u8)],
             0u8..=2,
             any::<u64>(),
             any::<u64>(),
@@ -211,6 +211,24 @@ impl Prop for Repetition {
                 }
             }
             loc.class("recorded_by_earlier_searches");
+            if case.seed % 2 == 1 && recorded_pos.len() >= 2 && recorded_pos[0].has_legal_move() {
+                // the first of them is searched once more (a game that goes back to an earlier position):
+                // everything recorded stays recorded
+                let s = &recorded_pos[0];
+                let pre = SearchSpec { depth: Some(1), seed: case.seed ^ 0xaaaa, workers: 1, sched_seed: None, cancel_after: None };
+                let (o, back) = search::run(s, &pre, artifact, usize::MAX);
+                loc.eval();
+                match back {
+                    Some(a) => artifact = a,
+                    None => return Err(format!("second search of '{}' ({:?}) panicked: {:?}", s.fen(), pre, o.panic)),
+                }
+                for r in recorded_pos.iter() {
+                    if !verif::history_contains(&artifact, &glue::state_direct(r)) {
+                        return Err(format!("after '{}' had been searched a second time on the same memory, '{}' (searched in between) is no longer recorded as seen", s.fen(), r.fen()));
+                    }
+                }
+                loc.class("an_earlier_root_searched_again");
+            }
             if small_memory {
                 // one more earlier search, of an unrelated position, to fill the table
                 let filler = Pos::from_fen("8/2p5/3p4/KP5r/1R3p1k/8/4P1P1/8 w - - 0 1").unwrap();
@@ -365,7 +383,7 @@ pub fn plan(ctx: &Ctx) -> Plan {
                root recorded (injected; judged against the exact values of the draw-augmented game: a claimed mate's first \
                move must still mate there, a mate still forced within the depth must be found), and - the way it \
                happens in real use - the recorded successors having been roots of earlier searches (depth 1-4) on the \
-               same search memory, which also leaves their table entries behind (three quarters of these cases on a small \
+               same search memory, which also leaves their table entries behind, every second time followed by a second search of the first of them (three quarters of these cases on a small \
                memory - 3x61, 7x29 or 5x32 buckets, table counts coprime to the bucket counts so that every bucket is reachable - that a further earlier search fills beyond one half). depth n..n+2, seeds, \
                1-32 workers under the baton scheduler, fresh 8x1024 memory. The expectation is solved in the game the \
                property defines (recorded positions and the root are terminal draws) by an exhaustive AND/OR search over \
